@@ -35,13 +35,14 @@ INFINITE_SOURCES = ("std::iter::Repeat", "std::iter::Cycle", "std::ops::RangeFro
 
 
 def named(body, t):
-    """term string with block sites removed and locals shown by debug name (stable under unrelated edits)"""
+    """term string with block sites removed and locals shown by type (stable under renaming and unrelated edits)"""
     s = term_str(t)
     s = re.sub(r"@bb\d+", "", s)
 
     def nm(m):
-        n = body.local_name(int(m.group(1)))
-        return "_" + (n or "tmp")
+        # locals are shown by TYPE (stable under renaming and under unrelated edits that renumber locals)
+        i = int(m.group(1))
+        return "_<" + (body.f["locals"][i]["ty"] if i < len(body.f["locals"]) else "?") + ">"
     s = re.sub(r"_(\d+)", nm, s)
     s = re.sub(r"'loc' \d+", "'loc'", s)
     return s
@@ -408,8 +409,8 @@ def termination(ctx):
             # registered: the tokeniser loop
             if key == "dewey::DeweyVersion::new":
                 paths = ctx.paths(key)
-                names = {i: body.local_name(i) for i in range(len(body.f["locals"]))}
-                idx = next((i for i, n in names.items() if n == "idx"), None)
+                from rules.c01 import tokeniser_state
+                idx = tokeniser_state(body, paths).get("idx")
                 backs = [p for p in paths if p.end[0] == "back" and p.end[1] == h]
                 ok = bool(backs) and idx is not None
                 worst = ""
